@@ -1,17 +1,27 @@
 (* C16_Corr.v — correspondence vocabulary for C16: a case is a history of batches
    (hook, operations as written) with, after each batch, whether SendBatch failed and
-   the canonicalised Gather().  `judged` is false for the informational stream of
+   the canonicalised Gather(); optionally followed by a ROUND of batches handed in at the
+   same time by one goroutine each (observed when all have returned: failure flags and
+   Gather()) and by batches one after the other again.  `judged` is false for the informational stream of
    out-of-domain histories (never judged).  Evaluated by vm_compute. *)
 From Verif Require Import Common C16_Model C16_Spec.
 Local Open Scope N_scope.
 
-Definition case := (bool * list batch * obs)%type.     (* judged?, input, implementation's observations *)
+(* judged?, history, implementation's observations after each batch of it, then the round of
+   concurrent batches ([] = none) with the observation made when all of them had returned *)
+Definition case := (bool * list batch * obs * (list batch * cobs) * (list batch * obs))%type.
 
-Definition c_judged (c : case) : bool := fst (fst c).
-Definition c_input (c : case) : list batch := snd (fst c).
-Definition c_obs (c : case) : obs := snd c.
+Definition c_judged (c : case) : bool := fst (fst (fst (fst c))).
+Definition c_input (c : case) : list batch := snd (fst (fst (fst c))).
+Definition c_obs (c : case) : obs := snd (fst (fst c)).
+Definition c_round (c : case) : list batch := fst (snd (fst c)).
+Definition c_cobs (c : case) : cobs := snd (snd (fst c)).
+Definition c_after (c : case) : list batch := fst (snd c).         (* batches one after the other after the round *)
+Definition c_aobs (c : case) : obs := snd (snd c).
 
-Definition model_obs (c : case) : obs := run (c_input c).
+(* the model's observation with the round taken in the order it is listed *)
+Definition model_obs (c : case) : obs * cobs * obs :=
+  (run (c_input c), conc_run (c_input c) (c_round c) (c_round c), after_run (c_input c) (c_round c) (c_after c)).
 
 Definition step_eqb (a b : bool * list series) : bool :=
   Bool.eqb (fst a) (fst b) && same_series (snd a) (snd b)
@@ -61,11 +71,48 @@ Fixpoint agrees_from (sts : list state) (bs : list batch) (os : obs) : bool :=
       end
   | _, _ => false
   end.
-Definition agrees (c : case) : bool := agrees_from [init_state] (c_input c) (c_obs c).
+
+(* the same walk, returning the model states compatible with the observations ([] = none) *)
+Definition step_states (sts : list state) (h : N) (ops : list op) (ok : state * bool -> bool) : list state :=
+  fold_left (fun acc st =>
+    fold_left (fun acc2 r => if ok r then add_state (fst r) acc2 else acc2) (hook_batch_any st h ops) acc) sts [].
+Fixpoint states_after (sts : list state) (bs : list batch) (os : obs) : list state :=
+  match bs, os with
+  | [], [] => sts
+  | (h, ops) :: bs', o :: os' =>
+      states_after (step_states sts h ops (fun r => step_eqb (snd r, gather (fst r)) o)) bs' os'
+  | _, _ => []
+  end.
+
+(* the round: the implementation's observation must be what the model produces when the
+   round's batches are taken as atomic steps in SOME order (and, as before, some order of
+   the groups inside each batch); only the failure flags are seen on the way, Gather at the end *)
+Fixpoint conc_states (sts : list state) (il : list (batch * bool)) : list state :=
+  match il with
+  | [] => sts
+  | ((h, ops), f) :: r => conc_states (step_states sts h ops (fun x => Bool.eqb (snd x) f)) r
+  end.
+Definition agrees_conc (sts : list state) (round : list batch) (co : cobs) (after : list batch) (aos : obs) : bool :=
+  Nat.eqb (length (fst co)) (length round)
+  && existsb (fun il =>
+       match filter (fun st => same_series (gather st) (snd co) && Nat.eqb (length (gather st)) (length (snd co)))
+                    (conc_states sts il) with
+       | [] => false
+       | sts' => agrees_from sts' after aos
+       end)
+     (lperms (combine round (fst co))).
+
+Definition agrees (c : case) : bool :=
+  agrees_from [init_state] (c_input c) (c_obs c)
+  && match c_round c, c_after c with
+     | [], [] => true
+     | [], _ => false
+     | _, _ => agrees_conc (states_after [init_state] (c_input c) (c_obs c)) (c_round c) (c_cobs c) (c_after c) (c_aobs c)
+     end.
 
 (* a judged case must be in the domain (the harness's generator claims it is) *)
 Definition mismatches (cs : list case) : list N :=
-  indices_where (fun c => if c_judged c then negb (if in_domain (c_input c) then agrees c else false) else false) cs.
+  indices_where (fun c => if c_judged c then negb (if in_domain_case (c_input c) (c_round c) (c_after c) then agrees c else false) else false) cs.
 Definition spec_violations (cs : list case) : list N :=
-  indices_where (fun c => if c_judged c then negb (P (c_input c) (c_obs c)) else false) cs.
-Definition trigger_F5a (cs : list case) : list N := indices_where (fun c => T_F5a (c_input c)) cs.
+  indices_where (fun c => if c_judged c then negb (P_case (c_input c) (c_obs c) (c_round c) (c_cobs c) (c_after c) (c_aobs c)) else false) cs.
+Definition trigger_F5a (cs : list case) : list N := indices_where (fun c => T_F5a_case (c_input c) (c_round c) (c_after c)) cs.
